@@ -22,9 +22,9 @@ def run(ctx):
     gate = vf.grep_gate()
     if gate:
         ctx.broken.append('forbidden constructs in coq/: ' + '; '.join(gate[:5]))
-    n, nlex = (2600, 500) if not ctx.thorough() else (60000, 6000)
+    n, nlex = (2600, 500) if not ctx.thorough() else (100000, 10000)
     rc, out = vf.sh([os.path.join(vf.BIN, 'c07'), '-seed', str(ctx.seed), '-n', str(n), '-nlex', str(nlex),
-                     '-out', ctx.out, '-tier', ctx.tier], timeout=3000)
+                     '-out', ctx.out, '-tier', ctx.tier, '-repo', vf.REPO], timeout=3000)
     if rc != 0:
         ctx.broken.append('harness c07 failed: ' + out[-400:])
         vf.finish(ctx, 'proof', [])
@@ -54,6 +54,7 @@ def run(ctx):
         'rule': s['rule'], 'samples': s['samples'], 'distribution': s['distribution'],
         'shifted_variants': ex.get('shifted_variants'), 'untriggered': ex.get('untriggered'),
         'hypothesis_scalar_pos_exact_failures': ex.get('hypothesis_failures'),
+        'corpus_files_bounds_checked': ex.get('corpus_files_bounds_checked'),
         'traces_validated_against_impl': len(terms) + len(lex), 'disagreements': len(bad) + len(bad2),
         'exhaustive': False,
     })
